@@ -206,7 +206,10 @@ Write ==
   /\ \E v \in {n \in Nodes : st.def[n].k = "var" /\ n \in st.vhandles}, op \in Ops :
        IF op \in {"set", "replace"}
        THEN \E x \in (IF Tag(st.def[v].init) = "p" THEN PVals
-                       ELSE IF Tag(st.def[v].init) = "n" THEN {y \in NVals : y[2] < v \/ "cyclic" \in Ctors} ELSE Vals) :
+                       ELSE IF Tag(st.def[v].init) = "n"
+                            THEN {y \in NVals : y[2] < v \/ "cyclic" \in Ctors}
+                                 \cup (IF "cyclic" \in Ctors THEN {NR(st.leaked[i]) : i \in 1..Len(st.leaked)} ELSE {})
+                       ELSE Vals) :
               x # st.cell[v] /\
               Do([a |-> "write", n |-> v, op |-> op, x |-> x], VarWrite(st, v, op, x))
        ELSE Do([a |-> "write", n |-> v, op |-> op, x |-> NoVal], VarWrite(st, v, op, NoVal))
@@ -327,6 +330,7 @@ Expect(s) ==
                         IN <<m>> \o Go(t \ {m})
            IN Go(d),
    released |-> [n \in 1..s.n |-> n \in Released(StabiliseFinish(s))],
+   touched |-> [o \in 1..s.no |-> s.onode[o] \in s.obsTouched],
    stale |-> [n \in 1..s.n |-> s.scope[n] # 0 /\ s.born[n] < s.gen[s.scope[n]]],
    necessary |-> Cardinality({n \in 1..s.n : Alive(s, n) /\ Nec(s, n)}),
    memo |-> s.memoLog,
@@ -372,7 +376,7 @@ View == <<[st EXCEPT !.stats = 0, !.round = 0], noops>>
 (* Invariants (property predicates of IncrRef on the engine state)          *)
 NoPanic == Ok(st) \/ st.panic = "panic:user"
            \/ ("limits" \in Ctors /\ st.panic \in {"panic:height", "panic:max_height_seen"})
-           \/ ("cyclic" \in Ctors /\ st.panic = "panic:cyclic")
+           \/ ("cyclic" \in Ctors /\ st.panic \in {"panic:cyclic", "panic:bind_not_necessary"})
            \/ ("foreign" \in RecipeKinds /\ st.panic = "panic:assert_foreign")
            \/ (st.poisoned /\ st.panic = "panic:height") \/ (st.poisoned /\ st.panic = "panic:status")
            \/ (("stabilise" \in Effs) /\ st.panic = "panic:status")
@@ -436,6 +440,18 @@ ProgXCell == <<[a |-> "var", v |-> I(0)], [a |-> "xcell", in |-> 1], [a |-> "var
 ProgMemo == <<[a |-> "var", v |-> I(0)], [a |-> "var", v |-> I(0)], [a |-> "memo_new", f |-> "const", over |-> 0],
               [a |-> "bind", in |-> 1, recipe |-> [r |-> "memo", m |-> 1]],
               [a |-> "bind", in |-> 2, recipe |-> [r |-> "memo", m |-> 1]]>>
+
+\* height limit reached only through adjust_heights: a bind that can switch from a low node to a
+\* taller pre-existing one, under a chain of consumers (K = 2, MaxH = 5)
+ProgHeightBind == <<[a |-> "var", v |-> I(0)], [a |-> "var", v |-> I(0)],
+                    [a |-> "map", f |-> "id", in |-> 2, eff |-> <<>>], [a |-> "map", f |-> "id", in |-> 3, eff |-> <<>>],
+                    [a |-> "bind", in |-> 1, recipe |-> [r |-> "pick", alts |-> <<2, 4>>]],
+                    [a |-> "map", f |-> "id", in |-> 6, eff |-> <<>>], [a |-> "map", f |-> "id", in |-> 7, eff |-> <<>>]>>
+\* a cycle that closes through a SCOPE edge: the outer bind creates r (node 8, handed out), the inner
+\* bind - the outer bind's lhs - can be made to return r through a Var<Incr> (K = 2)
+ProgScopeCycle == <<[a |-> "var", v |-> I(0)], [a |-> "var", v |-> NR(1)],
+                    [a |-> "bind", in |-> 2, recipe |-> [r |-> "ref"]],
+                    [a |-> "bind", in |-> 4, recipe |-> [r |-> "leak", then |-> [r |-> "map", f |-> "add", over |-> 1]]]>>
 
 \* compact view of a state for counterexamples
 Alias == [status |-> st.status, panic |-> st.panic, num |-> st.num, chain |-> st.chain,
